@@ -59,7 +59,7 @@ type c42In struct {
 
 func genC42(seed int64, tier string, emit func(run.Case)) {
 	r := gen.New(seed)
-	n := tierN(tier, 420, 8000)
+	n := tierN(tier, 420, 4000)
 	cor := Corpus()
 	var small []string
 	for _, s := range cor {
